@@ -2844,8 +2844,8 @@ func (p *Parser) timeClause(s *Stmt) {
 
 func (p *Parser) coprocClause(s *Stmt) {
 	cc := &CoprocClause{Coproc: p.pos}
-	if p.next(); isBashCompoundCommand(p.tok, p.val) {
-		// has no name
+	if p.next(); isBashCompoundCommand(p.tok, p.val) || p.hasValidIdent() {
+		// has no name; an assignment starts a simple command
 		cc.Stmt = p.gotStmtPipe(&Stmt{Position: p.pos}, false)
 		s.Cmd = cc
 		return
